@@ -277,6 +277,11 @@ func runProtoPlan(k int, plan ppPlan, t *Trace, seg int) int {
 				call.NLen, call.NLen2 = len(call.Name), len(call.Name2)
 				a := atomic.AddInt64(&seq, 1)
 				call.ExecRaw(s.API)
+				if call.Proc == "READDIRPLUS" {
+					for k := range call.Ents { // see NfsSpec.PageRules: a child's size may change while the listing is built
+						call.Ents[k].Size = -1
+					}
+				}
 				b := atomic.AddInt64(&seq, 1)
 				rec(c, call, a, b)
 				mu.Lock()
